@@ -224,15 +224,18 @@ def check_value(names, acc, do_stack=True, case=None, sep=" and "):
         )
         return
     # ---- whole stack
-    if not do_stack or value.endswith("\\") or value.strip() == "":
+    if not do_stack or value.strip() == "":
         return
+    # a value ending in a backslash is written with a blank before the closing delimiter (the dialect's escape
+    # convention R3: a delimiter directly after a backslash is a character); the writer does the same (F26, F32)
+    pad = lambda t: t + " " if t.endswith("\\") else t
     for fld, (o, c) in (("author", "{}"), ("editor", '""'), ("translator", "{}")):
-        if not dialect.is_value(f"{o}{value}{c}") or not dialect.is_value(f"{o}{merged}{c}"):
+        if not dialect.is_value(f"{o}{pad(value)}{c}") or not dialect.is_value(f"{o}{pad(merged)}{c}"):
             # the two escape conventions differ (e.g. '\\\\{}' is balanced for the name code but not for the
             # dialect, R3): such a value cannot be written into a document as it stands
             acc.count("value_not_embeddable")
             continue
-        doc = f"@article{{k, title = {{T and U}}, {fld} = {o}{value}{c}, year = 1999}}"
+        doc = f"@article{{k, title = {{T and U}}, {fld} = {o}{pad(value)}{c}, year = 1999}}"
         acc.trace()
         try:
             lib1 = bibtexparser.parse_string(doc, append_middleware=[SeparateCoAuthors(), SplitNameParts()])
